@@ -5,6 +5,7 @@ import (
 	"fmt"
 	"sort"
 	"strings"
+	"time"
 
 	remoteexecution "github.com/bazelbuild/remote-apis/build/bazel/remote/execution/v2"
 	"github.com/buildbarn/bb-storage/pkg/blobstore"
@@ -42,8 +43,11 @@ type modelStore struct {
 type modelCall struct {
 	Op       string
 	Digests  []string
+	Missing  map[string]bool // FindMissing: keys reported missing
 	Start    int
 	End      int
+	StartT   time.Duration
+	EndT     time.Duration
 	Err      error
 	Injected bool
 }
@@ -65,6 +69,9 @@ func (m *modelStore) Has(d digest.Digest) bool { _, ok := m.Objs[m.key(d)]; retu
 func (m *modelStore) enter(op string, ds []digest.Digest) (*modelCall, error) {
 	rt.Yield(m.Name + "." + op)
 	call := &modelCall{Op: op, Start: m.seq()}
+	if s := rt.Active(); s != nil {
+		call.StartT = s.Now()
+	}
 	for _, d := range ds {
 		call.Digests = append(call.Digests, m.key(d))
 	}
@@ -90,6 +97,9 @@ func (m *modelStore) leave(call *modelCall, err error) {
 	}
 	rt.Yield(m.Name + "." + call.Op + ".return")
 	call.End = m.seq()
+	if s := rt.Active(); s != nil {
+		call.EndT = s.Now()
+	}
 	m.InFlight[call.Op]--
 }
 
@@ -159,9 +169,11 @@ func (m *modelStore) FindMissing(ctx context.Context, digests digest.Set) (diges
 		return digest.EmptySet, err
 	}
 	sb := digest.NewSetBuilder(digests.Length())
+	call.Missing = map[string]bool{}
 	for _, d := range digests.Items() {
 		if !m.Has(d) {
 			sb.Add(d)
+			call.Missing[m.key(d)] = true
 		}
 	}
 	m.leave(call, nil)
